@@ -228,6 +228,9 @@ inductive Op
   | remove (e : Env) (id : String)
   | reap (e : Env) (id : String) (dur reapTimeout reapROTimeout : Int)
   | bootstrap (existing : Bool) (self : String) (servers : Config)
+  /-- `Store.Notify(id, addr)` on node `self`, whatever its notify bookkeeping `ns` is at that
+  moment (any value: the histories quantify over all of them) -/
+  | notify (opened hasLeader resolvable existing : Bool) (self : String) (ns : NotifyState) (id addr : String)
 deriving Repr
 
 def stepOp (c : Config) : Op → Config
@@ -237,6 +240,9 @@ def stepOp (c : Config) : Op → Config
   | .bootstrap ex self servers =>
     -- BootstrapCluster is only possible on a node without configuration
     if c.isEmpty then (bootstrap ex self servers).getD c else c
+  | .notify op hl rs ex self ns id addr =>
+    -- raft refuses BootstrapCluster on a node that already has a configuration
+    (storeNotify op hl rs (ex || !c.isEmpty) self ns c id addr).2.1
 
 def runOps (c : Config) (ops : List Op) : Config := ops.foldl stepOp c
 
